@@ -208,6 +208,18 @@ impl StreamsState {
                 s.max_data = params.initial_max_stream_data_bidi_local.into();
             }
         }
+        // Streams we already opened in 0-RTT were given the remembered limits; the peer now
+        // accounts for them with the current ones, so it won't send MAX_STREAM_DATA to catch up.
+        for dir in Dir::iter() {
+            let limit = match dir {
+                Dir::Uni => params.initial_max_stream_data_uni,
+                Dir::Bi => params.initial_max_stream_data_bidi_remote,
+            };
+            for i in 0..self.next[dir as usize] {
+                let id = StreamId::new(self.side, dir, i);
+                let _ = self.received_max_stream_data(id, limit.into());
+            }
+        }
     }
 
     /// Ensure we have space for at least a full flow control window of remotely-initiated streams
